@@ -1895,7 +1895,7 @@ func runC12(c *lib.Ctx) {
 
 	// perm families
 	type fam struct{ n, count int }
-	fams := []fam{{1, c.Scale(4, 12)}, {2, c.Scale(10, 40)}, {3, c.Scale(30, 150)}, {4, c.Scale(30, 120)}, {5, c.Scale(6, 36)}}
+	fams := []fam{{1, c.Scale(4, 12)}, {2, c.Scale(10, 40)}, {3, c.Scale(30, 150)}, {4, c.Scale(24, 120)}, {5, c.Scale(5, 36)}}
 	fi := 0
 	for _, fm := range fams {
 		for k := 0; k < fm.count; k++ {
@@ -1914,7 +1914,7 @@ func runC12(c *lib.Ctx) {
 		}
 	}
 	// single random programs, five classes
-	nsingle := c.Scale(400, 3000)
+	nsingle := c.Scale(350, 3000)
 	for k := 0; k < nsingle; k++ {
 		o := opts
 		o.redef = !avoidRedef && c.Rng.Chance(60)
